@@ -121,14 +121,47 @@ Qed.
 Lemma conv_section_spec name s :
   se_type (conv_section name s) = (if String.eqb (se_type s) "" then "DeterministicSampler" else se_type s) /\
   se_fields (conv_section name s) = se_fields s /\
+  se_rules (conv_section name s) = se_rules s /\
   (forall k v, In (k, v) (se_params s) -> k <> "ClearFrequencySec" -> k <> "AdjustmentInterval" ->
      In (k, v) (se_params (conv_section name s))) /\
   (forall v, In ("ClearFrequencySec", v) (se_params s) -> In ("ClearFrequency", (v * second)%Z) (se_params (conv_section name s))) /\
   (forall v, In ("AdjustmentInterval", v) (se_params s) -> In ("AdjustmentInterval", (v * second)%Z) (se_params (conv_section name s))).
 Proof.
-  split; [reflexivity|]. split; [reflexivity|]. cbn [conv_section se_params]. split; [|split].
+  split; [reflexivity|]. split; [reflexivity|]. split; [reflexivity|]. cbn [conv_section se_params]. split; [|split].
   - intros k v Hin H1 H2. apply in_map_iff. exists (k, v). split; [|exact Hin]. unfold conv_param. cbn [fst snd].
     apply String.eqb_neq in H1, H2. rewrite H1, H2. reflexivity.
   - intros v Hin. apply in_map_iff. exists ("ClearFrequencySec", v). split; [reflexivity|exact Hin].
   - intros v Hin. apply in_map_iff. exists ("AdjustmentInterval", v). split; [reflexivity|exact Hin].
+Qed.
+
+(* ------------------------------------------------------------------ one setting: written value and loaded value *)
+Lemma loaded_cases s :
+  loaded s = si_v1 s \/
+  (emits s = true /\ zero_text (si_v1 s) = true /\ si_ptr s = false /\ loaded s = si_sdefault s) \/
+  (emits s = false /\ loaded s = si_sdefault s).
+Proof.
+  unfold loaded. destruct (emits s) eqn:E.
+  - destruct (zero_text (si_v1 s)) eqn:Z; [|left; reflexivity].
+    destruct (si_ptr s) eqn:P; cbn [negb andb]; [left; reflexivity|]. right. left. auto.
+  - right. right. auto.
+Qed.
+
+(* a value that is written and is not a zero value is the effective v2 value *)
+Lemma written_nonzero_kept s : emits s = true -> zero_text (si_v1 s) = false -> loaded s = si_v1 s.
+Proof. intros E Z. unfold loaded. rewrite E, Z. reflexivity. Qed.
+
+(* an explicit false / zero of a setting whose v2 field can hold it (pointer type, e.g. *DefaultTrue) is kept by a
+   nondefault setting whenever it differs from the documented default *)
+Lemma explicit_zero_kept s :
+  si_vt s = "nondefault" -> si_text s <> si_mdefault s -> si_ptr s = true -> loaded s = si_v1 s.
+Proof.
+  intros Hv Hd Hp. unfold loaded, emits. rewrite Hv. rewrite (String.eqb_refl "nondefault").
+  apply String.eqb_neq in Hd. rewrite Hd. cbn [negb]. rewrite Hp. cbn [negb]. rewrite andb_false_r. reflexivity.
+Qed.
+
+(* a nondefault setting is left out only when the v1 value prints like the documented default *)
+Lemma nondefault_left_out s : si_vt s = "nondefault" -> emits s = false -> si_text s = si_mdefault s.
+Proof.
+  intros Hv E. unfold emits in E. rewrite Hv in E. rewrite (String.eqb_refl "nondefault") in E.
+  apply negb_false_iff, String.eqb_eq in E. exact E.
 Qed.
